@@ -336,6 +336,7 @@ func typeAssert(n *node, withResult, withOk bool) {
 		n.exec = func(f *frame) bltn {
 			valf := value(f)
 			v, ok := valf.Interface().(valueInterface)
+			ok = ok && v.node != nil // A nil interface value has no node.
 			if setStatus {
 				defer func() {
 					value1(f).SetBool(ok)
@@ -414,6 +415,14 @@ func typeAssert(n *node, withResult, withOk bool) {
 					value1(f).SetBool(ok)
 				}()
 			}
+			if ok && val.node == nil {
+				// A nil interface value has no node.
+				ok = false
+				if !withOk {
+					panic(n.cfgErrorf("interface conversion: interface is nil, not %s", rtype.String()))
+				}
+				return next
+			}
 			if ok && val.node.typ.cat != valueT {
 				m0 := val.node.typ.methods()
 				m1 := typ.methods()
@@ -446,8 +455,9 @@ func typeAssert(n *node, withResult, withOk bool) {
 				leftType = val.node.typ.rtype
 			} else {
 				v = v.Elem()
-				leftType = v.Type()
-				ok = true
+				if v.IsValid() {
+					leftType = v.Type()
+				}
 			}
 			ok = v.IsValid()
 			if !ok {
